@@ -15,6 +15,7 @@ pub mod timer;
 pub mod irq;
 pub mod runloop;
 pub mod sock;
+pub mod mes;
 
 use crate::hv::e1::Case;
 use crate::hv::known::Known;
@@ -33,6 +34,7 @@ pub fn build(id: &str, tier: Tier, seed: u64, known: &[Known]) -> Option<Prop> {
         "C09" => tables::c09(tier, seed),
         "C10" => irq::c10(tier, seed),
         "C13" => runloop::c13(tier, seed),
+        "C14" => mes::c14(tier, seed),
         "C16" => ports::c16(tier, seed),
         "C17" => timer::c17(tier, seed),
         "C18" => sock::c18(tier, seed),
@@ -75,6 +77,7 @@ pub fn replay_other(prop: &str, doc: &serde_json::Value, path: &std::path::PathB
         Some("c10") => irq::replay_c10(&v["case"]),
         Some("c13") => runloop::replay_c13(&v["case"]),
         Some("c18") => sock::replay_c18(&v["case"]),
+        Some("c14") => mes::replay_c14(&v["case"]),
         other => {
             println!("no replay handler for engine {:?} (property {})", other, prop);
             return 2;
